@@ -171,11 +171,13 @@ def build_offgrid(rng):
     low = rng.random() < 0.5
     for k in range(rng.randint(2, 4)):
         if low:
-            lo = G.pick(rng, [191.2775e12, 191.31e12, 191.3031e12, 191.275e12])
+            # (191.2031 / 191.1519 THz lie below every stock model: the slot range of the whole network then starts
+            # off the grid)
+            lo = G.pick(rng, [191.2775e12, 191.31e12, 191.3031e12, 191.275e12, 191.2031e12, 191.1519e12])
             hi = G.pick(rng, [196.0535e12, 194.0519e12, 193.0519e12, 192.9981e12, 196.125e12])
         else:
             lo = G.pick(rng, [192.4019e12, 193.1031e12, 193.3044e12, 191.275e12])
-            hi = G.pick(rng, [196.0535e12, 195.9977e12, 196.1219e12, 196.125e12])
+            hi = G.pick(rng, [196.0535e12, 195.9977e12, 196.1219e12, 196.125e12, 196.1781e12])
         names.append(f'vf_offgrid_{k}')
         ej['Edfa'].append({'type_variety': names[-1], 'type_def': 'variable_gain', 'f_min': lo, 'f_max': hi,
                            'gain_flatmax': 26, 'gain_min': 15, 'p_max': 23, 'nf_min': 6, 'nf_max': 10,
